@@ -64,7 +64,7 @@ def run(tier, seed):
     binary = hc.build(d)
     reps, m, viol = vc.rsched_scenarios(PID, "h_run", binary, scenarios(tier), d, workers=8)
     # the step function alone, under every delivery order and every legal GVT announcement
-    preps, pm, pviol = hc.proc_part(PID, d, tier)
+    preps, pm, pviol = hc.proc_part(PID, d, tier, part="small")
     viol += pviol
     if not viol:
         for k in ("rollbacks", "anti_messages", "silent_executions", "end_state_compared", "ended_by_predicate", "fossil_releases"):
